@@ -4,7 +4,7 @@ ID=$1; PROP=$2; shift 2
 WT=/tmp/wt/seed_${ID}_$$
 git -C /repo worktree add -q "$WT" HEAD || exit 3
 git -C "$WT" apply /verif/seeded/$ID/patch.diff || { git -C /repo worktree remove --force "$WT"; exit 3; }
-cd /verif && VERIF_REPO="$WT" ./vcheck $PROP "$@" > /tmp/seeded_$ID.$PROP.log 2>&1; RC=$?
+cd /verif && VERIF_EVIDENCE_DIR=/tmp/seeded_evidence VERIF_REPO="$WT" ./vcheck $PROP "$@" > /tmp/seeded_$ID.$PROP.log 2>&1; RC=$?
 git -C /repo worktree remove --force "$WT"
 echo "== $ID vs $PROP: exit=$RC"; grep -E "VIOLATION|KNOWN-FINDING|INCONCLUSIVE|^OK" /tmp/seeded_$ID.$PROP.log | cut -c1-260 | head -${SHOW:-4}
 exit $RC
